@@ -1515,3 +1515,41 @@ CONTROLS['C14'] += [
       "                        my_ids.parent_id != parent_ids.id and\n",
       "                        my_ids.root_id != parent_ids.root_id and\n", 'R14.7'),
 ]
+
+CONTROLS['C15'] += [
+    M('c15-optional-key-subscripted', 'placement/schemas/trait.py',
+      "SET_TRAITS_FOR_RP_SCHEMA['required'].append('resource_provider_generation')\n",
+      "", 'R15.7'),
+]
+CONTROLS['C17'] += [
+    M('c17-cleanup-does-not-reraise', HA,
+      "        except Exception:\n            with excutils.save_and_reraise_exception():\n"
+      "                if created_new_consumer:\n                    delete_consumers([consumer])",
+      "        except Exception:\n            with excutils.save_and_reraise_exception(reraise=False):\n"
+      "                if created_new_consumer:\n                    delete_consumers([consumer])",
+      'R17.2'),
+]
+CONTROLS['C18'] += [
+    M('c18-independent-writer', HU,
+      "        cons_type = consumer_type_obj.ConsumerType(ctx, name=name)\n",
+      "        cons_type = consumer_type_obj.ConsumerType(ctx, name=name)\n"
+      "        from placement import db_api as _d\n"
+      "        with _d.placement_context_manager.writer.independent.using(ctx):\n"
+      "            pass\n", 'R18d'),
+]
+CONTROLS['C19'] += [
+    M('c19-sync-flag-inverted', OT,
+      "        if not _TRAITS_SYNCED:\n            _trait_sync(ctx)",
+      "        if _TRAITS_SYNCED:\n            _trait_sync(ctx)", 'R19.6'),
+    M('c19-sync-flag-before-sync', ORC,
+      "            _resource_classes_sync(ctx)\n            _RESOURCE_CLASSES_SYNCED = True",
+      "            _RESOURCE_CLASSES_SYNCED = True\n            _resource_classes_sync(ctx)", 'R19.6'),
+]
+CONTROLS['C20'] += [
+    M('c20-hash-includes-amount-only', OAC,
+      "        return hash((self.resource_provider.id,\n                     self.resource_class,\n                     self.amount))",
+      "        return hash((self.resource_class,\n                     self.amount))", 'R20.5'),
+    M('c20-eq-ignores-mappings', OAC,
+      "        return (set(self.resource_requests) == set(other.resource_requests) and\n                self.mappings == other.mappings)",
+      "        return set(self.resource_requests) == set(other.resource_requests)", 'R20.5'),
+]
